@@ -3,9 +3,9 @@ K = 'github.com/ProjectSerenity/firefly/kernel'
 
 PROP = {
     'pkg': K + '/device/tty',
-    'tests': [{'name': 'TestVerifC18', 'checks_quick': 24000, 'checks_thorough': 800000, 'shrinktime': '10s'},
-              {'name': 'TestVerifC18Vga', 'checks_quick': 24000, 'checks_thorough': 600000, 'shrinktime': '10s'},
-              {'name': 'TestVerifC18Fb', 'checks_quick': 12000, 'checks_thorough': 300000, 'shrinktime': '10s'}],
+    'tests': [{'name': 'TestVerifC18', 'checks_quick': 16000, 'checks_thorough': 500000, 'shrinktime': '10s'},
+              {'name': 'TestVerifC18Vga', 'checks_quick': 16000, 'checks_thorough': 400000, 'shrinktime': '10s'},
+              {'name': 'TestVerifC18Fb', 'checks_quick': 8000, 'checks_thorough': 200000, 'shrinktime': '10s'}],
     'rule': 'The C17 histories (<=400 ops: WriteByte/Write with control bytes, SetCursorPosition, about 9% '
             'SetState(active/inactive), about 1% re-attachment to a freshly generated console of the same kind - always '
             'preceded by SetState(inactive), as hal does) run against three console kinds, one rapid test each: a '
